@@ -226,6 +226,13 @@ def wire_shapes() -> dict[str, bool]:
     t = [t for t in _trys(u) if "_read_batch_with_log_check" in _calls(t.body)]
     out["unaryDrainOnErr"] = len(t) == 1 and drains_then_raises(_handler(t[0], "RpcError"))
     out["unaryDrainOnCb"] = len(t) == 1 and drains_then_raises(_handler(t[0], "Exception"))
+    # the rest of the response (its EOS marker) is consumed BEFORE the result value is validated / decoded, so a client-side
+    # TypeError / KeyError there cannot leave the marker on the transport
+    last_try = [s_ for s_ in u.body if isinstance(s_, ast.Try)][-1]
+    idx_drain = next((i for i, s_ in enumerate(last_try.body) if isinstance(s_, ast.Expr) and _calls(s_) == ["_drain_stream"]), None)
+    idx_dec = next((i for i, s_ in enumerate(last_try.body) if any(c in ("_validate_result", "_deserialize_value") for c in _calls(s_))
+                    or ".as_py" in ast.unparse(s_)), None)
+    out["unaryDrainBeforeDecode"] = idx_drain is not None and idx_dec is not None and idx_drain < idx_dec
     out["unaryDrainsAfterResult"] = "_drain_stream" in _calls([s for s in u.body if isinstance(s, ast.Try)][-1].body)
     h = _func(tree, "_read_header_batch")
     t = [t for t in _trys(h) if "_dispatch_log_or_error" in _calls(t.body)]
@@ -244,7 +251,7 @@ def wire_shapes() -> dict[str, bool]:
 
 
 MODEL_FIELDS = ["drainVersion", "drainParams", "drainInit", "drainUnknown", "initChecks", "cliDrainOverErr", "cliDrainSurvivesCb",
-                "unaryDrainOnCb", "hdrDrainOnCb", "hdrAbortCloses", "emptyRequestReplies", "initErrorFlushesLogs", "failFlushesLogs"]
+                "unaryDrainOnCb", "hdrDrainOnCb", "hdrAbortCloses", "emptyRequestReplies", "initErrorFlushesLogs", "failFlushesLogs", "unaryDrainBeforeDecode"]
 
 
 def emit() -> dict[str, str]:
@@ -272,6 +279,7 @@ structure Shape where
   emptyRequestReplies : Bool -- _read_request answers a request stream without any batch (else StopIteration ends `serve`)
   initErrorFlushesLogs : Bool -- the error stream of a failed stream init carries the logs emitted before the failure
   failFlushesLogs : Bool     -- a failing process() call's logs are written ahead of its error batch
+  unaryDrainBeforeDecode : Bool -- _read_unary_response drains to EOS before it validates / decodes the result value
 deriving Repr, DecidableEq
 
 def shape : Shape := {{ {fields} }}
